@@ -360,6 +360,11 @@ func (r *Run) triage(unmatched []*failRec) {
 	var order []string
 	for _, fr := range unmatched {
 		k := fr.Scenario + " | " + fr.Fail.Facet + " | " + fr.Fail.Dev
+		for _, sf := range strings.Split(os.Getenv("VERIF_SPLIT"), ",") {
+			if sf != "" {
+				k += " | " + sf + "=" + fr.Feat[sf]
+			}
+		}
 		c := m[k]
 		if c == nil {
 			c = &cl{first: fr, feats: map[string]map[string]int{}}
